@@ -554,6 +554,8 @@ void check_ok(Slot& s, const std::string& after) {
   if (ok) return;
   bool partial = state_word(*s.m).compare(0, 21, "PARTIALLY_SATISFIABLE") == 0;
   std::string cls = !threw.empty() ? ":throws" : after != "add_to_integer_space_dimensions" ? "" : partial ? ":cached-point-not-integral" : ":status-not-downgraded";
+  // triage by the kind of problem at this moment: the branch-and-bound path (integer variables present) keeps its own cached point
+  if (cls.empty()) cls = s.D.ints.empty() ? ":lp" : ":mip";
   violation("C06.ok." + after + cls, (threw.empty() ? "OK() is false after " : "OK() throws (" + threw + ") after ") + after + "; state " + state_word(*s.m) + "; " + show(s.D));
   if (after != "add_to_integer_space_dimensions" || !partial || g_assertions) throw Stop();   // with PPL_ASSERT enabled the next mutator would abort on PPL_ASSERT(OK())
   s.skip_ok = true;   // the state itself is legitimate: go on, without consulting OK() until the problem is resolved
